@@ -18,6 +18,7 @@ CONSTANTS
   LegacyNilLog = FALSE
   PubRest <- RestB
   MutBatchPersistFirst = TRUE
+  MutDropLogEarly = FALSE
   MutBatchNoWait = FALSE
   MutPersistOutsideLock = FALSE
 INVARIANTS NoPanic OneUnsettled OneSenderPerPair NoSpuriousRedelivery OnlyOwnTopic BlockingReturn BatchOrder AfterClose NoStuckCall Complete
